@@ -7,6 +7,7 @@ namespace BB.ErrorHandling
 /-- Reading an unwrapped buffer completely. -/
 def whole : Buf → Except Err Bytes
   | .bytes data => .ok data
+  | .readerAt data _ => .ok data
   | .error e => .error e
   | .chunks d s => casFull d s
   | .reader d s => casFull d s
@@ -55,6 +56,7 @@ theorem casFull_err {d : Digest} {s : List Item} {e : Err} (h : casFull d s = .e
 theorem whole_own {b : Buf} {e : Err} (h : whole b = .error e) : Own b e := by
   cases b with
   | bytes data => simp [whole] at h
+  | readerAt data suf => simp [whole] at h
   | error e' => simp [whole] at h; simp [Own, h]
   | chunks d s => exact casFull_err h
   | reader d s => exact casFull_err h
@@ -63,6 +65,7 @@ theorem whole_own {b : Buf} {e : Err} (h : whole b = .error e) : Own b e := by
 theorem whole_good {D : Bytes} {b : Buf} {x : Bytes} (g : Good D b) (h : whole b = .ok x) : x = D := by
   cases b with
   | bytes data => simp [whole] at h; simp only [Good] at g; rw [← h, g]
+  | readerAt data suf => simp [whole] at h; simp only [Good] at g; rw [← h, g]
   | error e' => simp [whole] at h
   | chunks d s =>
     obtain ⟨_, h2, h3⟩ := casFull_ok h
@@ -81,6 +84,7 @@ theorem whole_sealed {d : Digest} {D : Bytes} {b : Buf} {x : Bytes}
     (hd : ∀ x, d.valid x = true → x.length = d.size → x = D) (g : Sealed d D b) (h : whole b = .ok x) : x = D := by
   cases b with
   | bytes data => simp [whole] at h; simp only [Sealed] at g; rw [← h, g]
+  | readerAt data suf => simp [whole] at h; simp only [Sealed] at g; rw [← h, g]
   | error e' => simp [whole] at h
   | chunks d' s =>
     simp only [Sealed] at g; subst g
@@ -98,6 +102,11 @@ theorem whole_sealed {d : Digest} {D : Bytes} {b : Buf} {x : Bytes}
 theorem baseSlice_ok {max : Nat} {b : Buf} {x : Bytes} (h : baseSlice max b = .ok x) : whole b = .ok x := by
   cases b with
   | bytes data =>
+    simp only [baseSlice] at h
+    by_cases hh : data.length > max
+    · simp [hh] at h
+    · simpa [hh, whole] using h
+  | readerAt data suf =>
     simp only [baseSlice] at h
     by_cases hh : data.length > max
     · simp [hh] at h
@@ -126,6 +135,11 @@ theorem baseSlice_own {max : Nat} {b : Buf} {e : Err} (h : baseSlice max b = .er
     by_cases hh : data.length > max
     · simp [hh] at h; subst h; exact trivial
     · simp [hh] at h
+  | readerAt data suf =>
+    simp only [baseSlice] at h
+    by_cases hh : data.length > max
+    · simp [hh] at h; subst h; exact trivial
+    · simp [hh] at h
   | error e' => simp [baseSlice] at h; simp [Own, h]
   | chunks d s =>
     simp only [baseSlice] at h
@@ -143,9 +157,17 @@ theorem baseSlice_own {max : Nat} {b : Buf} {e : Err} (h : baseSlice max b = .er
     · simp [hh] at h; subst h; exact Or.inr trivial
     · simp only [hh, if_false] at h; exact casFull_err h
 
-theorem baseReadAt_ok {off n : Nat} {b : Buf} {x : Bytes} {fl : Bool} (h : baseReadAt off n b = .ok (x, fl)) :
+theorem baseReadAt_ok {off n : Nat} {b : Buf} {x : Bytes} {fl : Bool} (ht : Tight b)
+    (h : baseReadAt off n b = .ok (x, fl)) :
     ∃ data, whole b = .ok data ∧ x = (data.drop off).take n := by
   cases b with
+  | readerAt data suf =>
+    simp only [Tight] at ht; subst ht
+    refine ⟨data, rfl, ?_⟩
+    simp only [baseReadAt, List.append_nil] at h
+    by_cases hh : off ≥ data.length
+    · rw [if_pos hh] at h; cases h; rw [List.drop_eq_nil_of_le hh]; simp
+    · rw [if_neg hh] at h; cases h; rfl
   | bytes data =>
     refine ⟨data, rfl, ?_⟩
     simp only [baseReadAt] at h
@@ -180,6 +202,11 @@ theorem baseReadAt_own {off n : Nat} {b : Buf} {e : Err} (h : baseReadAt off n b
   | bytes data =>
     simp only [baseReadAt] at h
     by_cases hh : off > data.length <;> simp [hh] at h
+  | readerAt data suf =>
+    simp only [baseReadAt] at h
+    by_cases hh : off ≥ (data ++ suf).length
+    · rw [if_pos hh] at h; cases h
+    · rw [if_neg hh] at h; cases h
   | error e' => simp [baseReadAt] at h; simp [Own, h]
   | chunks d s =>
     simp only [baseReadAt] at h
@@ -241,7 +268,9 @@ theorem withEH_spec : ∀ (h : List Resp) (base : Buf),
      | .plain b =>
         (withEH base h).2.2 = 1 ∧
         ((∃ data, b = .bytes data ∧ (base = b ∨ Resp.repl b ∈ h) ∧ decision h (withEH base h).2.1.length = none) ∨
-         (∃ e, b = .error e ∧ decision h (withEH base h).2.1.length = some e))
+         (∃ e, b = .error e ∧ decision h (withEH base h).2.1.length = some e) ∨
+         (∃ data suf, b = .readerAt data suf ∧ (base = b ∨ Resp.repl b ∈ h) ∧
+            decision h (withEH base h).2.1.length = none))
      | .eh b d =>
         (withEH base h).2.2 = 0 ∧ (base = b ∨ Resp.repl b ∈ h) ∧
         (∃ s, b = .chunks d s ∨ b = .reader d s ∨ b = .clone d s) ∧
@@ -249,6 +278,9 @@ theorem withEH_spec : ∀ (h : List Resp) (base : Buf),
         (∀ k, decision h ((withEH base h).2.1.length + k) = decision (h.drop (withEH base h).2.1.length) k) ∧
         (∀ b', Resp.repl b' ∈ h.drop (withEH base h).2.1.length → Resp.repl b' ∈ h))
   | h, .bytes data => by
+    refine ⟨by simp only [withEH]; exact .nil _ _, ?_⟩
+    simp [withEH, decision]
+  | h, .readerAt data suf => by
     refine ⟨by simp only [withEH]; exact .nil _ _, ?_⟩
     simp [withEH, decision]
   | h, .chunks d s => by
@@ -278,12 +310,16 @@ theorem withEH_spec : ∀ (h : List Resp) (base : Buf),
       rw [hw] at i2
       simp only [] at i2 ⊢
       refine ⟨i2.1, ?_⟩
-      rcases i2.2 with ⟨data, j1, j2, j3⟩ | ⟨e', j1, j2⟩
+      rcases i2.2 with ⟨data, j1, j2, j3⟩ | ⟨e', j1, j2⟩ | ⟨data, suf, j1, j2, j3⟩
       · refine Or.inl ⟨data, j1, Or.inr ?_, by simpa [decision] using j3⟩
         rcases j2 with j2 | j2
         · rw [← j2]; exact List.mem_cons_self
         · exact List.mem_cons_of_mem _ j2
-      · exact Or.inr ⟨e', j1, by simpa [decision] using j2⟩
+      · exact Or.inr (Or.inl ⟨e', j1, by simpa [decision] using j2⟩)
+      · refine Or.inr (Or.inr ⟨data, suf, j1, Or.inr ?_, by simpa [decision] using j3⟩)
+        rcases j2 with j2 | j2
+        · rw [← j2]; exact List.mem_cons_self
+        · exact List.mem_cons_of_mem _ j2
     | eh b2 d =>
       rw [hw] at i2
       simp only [] at i2 ⊢
